@@ -16,7 +16,7 @@ def ambiguous(b, h1):
 def run(R):
     if not R.build():
         return
-    R.lean(["C06", "C06Run"])
+    R.lean(["C06", "C06Run", "C01RunDelete"])
     import hunted
     hunted.run(R, "C06")
     quick = R.tier == "quick"
